@@ -12,6 +12,7 @@ theorem liveInv_init (M : Machine S) (hs : ReplaySafe M) (c0 : Nat) :
   state := by simp [above, sortByHeight, replayRun]
   futns := by intro x hx; cases hx
   votes := by intro v hv; simp [votesOf] at hv
+  rok := by simp [above, sortByHeight, ReplayOK]
 
 theorem liveInv_run (M : Machine S) (hs : ReplaySafe M) (ins : List Input) (s : S) (E : List Entry)
     (b : Nat) (tr : List Effect) (inv : LiveInv M s E b tr) (ok : ListenOK M s ins) :
@@ -28,7 +29,7 @@ theorem liveInv_run (M : Machine S) (hs : ReplaySafe M) (ins : List Input) (s : 
       have := ih s E b tr inv okr'
       simpa [liveRun, loggedEntries, h1, h2, walOf, effectsOf] using this
     · have hwal : walOf (M.step s i).2 = [e] := by rw [h2]; simp [walOf, hw]
-      obtain ⟨_, inv'⟩ := liveInv_step M hs s E b tr inv i e ar h2 hi hh hstart
+      obtain ⟨_, inv'⟩ := liveInv_step M hs s E b tr inv i e ar hst h2 hi hh hstart
       have := ih (M.step s i).1 (E ++ [e]) _ _ inv' okr
       simpa [liveRun, loggedEntries, hwal, List.append_assoc] using this
 
@@ -70,10 +71,28 @@ theorem votes_height_ge (M : Machine S) (hs : ReplaySafe M) (L : List Entry) (t 
         exact Nat.le_refl _
     · exact Nat.le_trans (replayStep_height_mono M hs t e) (ih _ hv)
 
+theorem live_replayOK (M : Machine S) (hs : ReplaySafe M) (ins : List Input) (s : S)
+    (ok : ListenOK M s ins) : ReplayOK M s (loggedEntries M s ins) := by
+  induction ins generalizing s with
+  | nil => trivial
+  | cons i rest ih =>
+    obtain ⟨hst, okr⟩ := ok
+    rcases hs.logged_or_inert s i hst with ⟨h1, h2⟩ | ⟨e, ar, h2, hi, hh, hstart, hw⟩
+    · have := ih s (by rw [h1] at okr; exact okr)
+      simpa [loggedEntries, h1, h2, walOf] using this
+    · have hwal : walOf (M.step s i).2 = [e] := by rw [h2]; simp [walOf, hw]
+      have hrs : replayStep M s e = M.step s i := by rw [replayStep_of_not_stale M s e hh, hi]
+      simp only [loggedEntries, hwal, List.singleton_append, ReplayOK, hrs]
+      refine ⟨fun htm _ => ?_, ih _ okr⟩
+      rcases hst with h | h
+      · exact h
+      · rw [← hi] at h
+        cases e <;> simp [Entry.isTimeout] at htm <;> simp [Entry.toInput] at h
+
 /-- No vote after the restart conflicts with one broadcast before it, when the crash image holds
 the log above the chain height (see `Props.no_conflicting_vote_after_recovery_partial`). -/
 theorem no_conflict_core (M : Machine S) (hs : ReplaySafe M) (ne : NoEquivocation M)
-    (s : S) (E : List Entry) (b : Nat) (tr : List Effect) (inv : LiveInv M s E b tr)
+    (s : S) (E : List Entry) (b : Nat) (tr : List Effect) (inv : LiveInvW M s E b tr)
     (n : Node) (p : Nat) (hchain : n.chainHeight = b) (hp : p ≤ b)
     (hview : (view n.store.flushed).2 = above p E)
     (pre : List Effect) (hpre : ∀ v ∈ votesOf pre, v ∈ votesOf tr)
@@ -97,7 +116,9 @@ theorem no_conflict_core (M : Machine S) (hs : ReplaySafe M) (ne : NoEquivocatio
   by_cases hvh : v.h = b + 1
   · have hv' : v ∈ votesOf (replayRun M (M.init (b + 1)) L).2 := by
       rw [hL, List.mem_append]; exact Or.inl (hvt.2 hvh)
-    exact ne (b + 1) L v w hv' hw
+    have hrokL : ReplayOK M (M.init (b + 1)) L :=
+      (replayOK_append M _ _ _).2 ⟨inv.rok, by rw [← inv.state]; exact live_replayOK M hs cont s okc⟩
+    exact ne (b + 1) L hrokL v w hv' hw
   · have hwge := votes_height_ge M hs L (M.init (b + 1)) w hw
     rw [hs.height_init] at hwge
     intro hc
